@@ -122,7 +122,7 @@ def call_sites():
 def loc_of(point, setup):
     """Model location class of a fault point; None = the point is not on this setup's path (no fault happens)."""
     if point in ("before-inform-parent", "after-inform-parent"):
-        if setup != "fork":
+        if setup not in ("fork", "fork-sigchld-ign"):
             return None
         return "after-run" if point == "before-inform-parent" else "after-inform"
     if point == "after-write":
@@ -193,6 +193,9 @@ class Env:
             env["WV_SHIM"] = "fork" if setup == "forkfail" else "pipe"
         if point is not None:
             env["WILD_VERIF_FAULT"] = f"{point}:{kind}"
+        if setup == "fork-sigchld-ign":
+            # the invoker ignores SIGCHLD (inherited across exec): the kernel reaps the worker itself and waitpid() fails with ECHILD
+            args = ["/bin/sh", "-c", "trap '' CHLD; exec \"$@\"", "sh"] + args
         p = subprocess.run(args, cwd=os.path.dirname(out), env=env, stdout=subprocess.PIPE, stderr=subprocess.PIPE, timeout=120)
         # The state of the output is read immediately: the property is about the moment the invoker sees the exit status.
         state = "complete" if ref else self.state(out)
@@ -284,6 +287,12 @@ def run(ctx):
         cases.append(("forkfail", "default", None, None, "absent"))
     else:
         ctx.assumptions.append("LD_PRELOAD shim could not be built: fork()/pipe() failure setups not exercised")
+    # the invoking process ignores SIGCHLD, so the parent's waitpid() on the worker fails: no model prediction for the exact status,
+    # only the property itself is checked (exit 0 only with a complete output; a failure before "done" gives non-zero)
+    for point in (points if not ctx.quick else ["after-args", "after-layout", "mid-write", "before-inform-parent", "after-inform-parent"]):
+        for kind in (KINDS if not ctx.quick else ["error", "kill9", "abort"]):
+            cases.append(("fork-sigchld-ign", "default", point, kind, "absent"))
+    cases.append(("fork-sigchld-ign", "default", None, None, "absent"))
     # a stale file at the output path: exit 0 must never leave it in place
     stale_points = points if not ctx.quick else ["after-layout", "after-output-created", "before-flush", "after-write", "after-inform-parent"]
     for setup in setups:
@@ -317,12 +326,13 @@ def run(ctx):
         loc = loc_of(point, setup) if point else None
         mk = kind if (point and loc) else "none"
         line = f"proc-obs {setup} {mk} {loc or '-'}"
-        lines.append(line)
         complete = state == "complete"
         # after a reported failure C17 does not say what the file looks like (C18 does): compared only where C17 constrains it
         na = (mk != "none" and loc != "after-inform") or setup == "pipefail"
-        impl.append(f"rc={rc} complete={'na' if na else int(complete)}")
-        meta.append((setup, threads, point, kind, prior, rc, state))
+        if setup != "fork-sigchld-ign":
+            lines.append(line)
+            impl.append(f"rc={rc} complete={'na' if na else int(complete)}")
+            meta.append((setup, threads, point, kind, prior, rc, state))
         ctx.count("setup", setup)
         ctx.count("kind", kind or "none")
         ctx.count("point", point or "none")
@@ -350,5 +360,5 @@ def run(ctx):
     for (l, a, m_) in dis[:5]:
         i = lines.index(l)
         ctx.sample({"disagreement": l, "observed": a, "model": m_, "case": meta[i]}, cap=16)
-    k = len(cases) // 3
+    k = len(lines) // 3
     ctx.sample({"case": meta[k], "request": lines[k], "observed": impl[k], "model": model[k]}, cap=16)
